@@ -248,6 +248,10 @@ def api_schedule(path):
             sit.add("raw" if args[0] == "raw" else "lzma")
             if calls:
                 calls[-1] = calls[-1] + (args[0],)
+        elif name == "FillMove":
+            sit.add("move")
+        elif name == "StartIndep":
+            sit.add("indep")
     return calls, sit
 
 
@@ -339,7 +343,7 @@ def tour_jobs(ctx, cfgname, n_paths, rnd, pool):
             kw["chunk_size"] = regime["chunk_size"]
         if regime.get("preset"):
             kw["preset"] = E.seg("text", regime["preset"], 5)
-        jobs.append(E.mk_job(f"tour-{cfgname}-{i}", writer=writer, opt=opt, input=segs, script=steps, trace=1, **kw))
+        jobs.append(E.mk_job(f"tour-{cfgname}-{i}", writer=writer, opt=opt, input=segs, script=steps, trace=1, sit=sorted(sit), **kw))
     log(f"[tour] {cfgname}: {r.distinct} states / {ne} edges -> {total} covering paths, {len(scheds)} distinct API schedules, {len(jobs)} replayed")
     ctx.add("tour_graph_edges", ne)
     ctx.add("tour_schedules", len(scheds))
@@ -543,6 +547,25 @@ def finish_plan(ctx, pid, tier, pool, design, jobs, meta, results, noopt_jobs, n
                               {"job": E.replay_job(j), "features": (["std"] if build == "noopt" else None), "source": src})
             if r.get("mutations") and r["mutations"]["panic"]:
                 ctx.add("decoder_panics_on_mutated_streams_seen", r["mutations"]["panic"])
+    # spec -> impl: the situations of each abstract tour behaviour (window move, uncompressed / LZMA chunk, independent
+    # chunk) must be realised by its scaled image on the real code; a miss says the scaling / data recipe did not carry the
+    # behaviour over (evidence only, never a verdict)
+    t_abs = t_real = 0
+    t_miss = []
+    for j, r, src, ex, build in all_runs:
+        if src != "tlc-tour" or r["outcome"] != "ok":
+            continue
+        c = r["cov"]
+        real = {"move": c["moves"] > 0, "raw": c["chunks_raw"] > 0, "lzma": c["chunks_lzma"] > 0, "indep": c["encoders"] > 1}
+        for sname in j.get("sit", []):
+            t_abs += 1
+            if real.get(sname):
+                t_real += 1
+            elif len(t_miss) < 8:
+                t_miss.append(f"{j['id']}:{sname}")
+    ctx.cov["tour_situations_abstract"] = t_abs
+    ctx.cov["tour_situations_realised"] = t_real
+    ctx.cov["tour_situations_missed_sample"] = t_miss
     # design counter-examples of the as-built configuration need an implementation witness
     for j, r, src, ex, build in all_runs:
         if src == "tlc-cex":
